@@ -145,6 +145,7 @@ def run_case(case):
             ndoc += 1
         nodes.append({'t': 'doctest', 'docs': docs})
     extra_files = []
+    docfile_names = []
     if rng.random() < 0.25:
         msg, lab = gen_message(rng)
         if lab in ('nul', 'long', 'multiline', 'surrogate'):
@@ -153,8 +154,18 @@ def run_case(case):
         extra_files.append({'file': 'docs/readme_%d.txt' % case['idx'],
                             'content': 'A doc file\n\n    >>> print(%r)\n'
                                        '    nope\n' % msg})
-        nodes.append({'t': 'docfile',
-                      'files': ['docs/readme_%d.txt' % case['idx']]})
+        dfiles = ['docs/readme_%d.txt' % case['idx']]
+        if rng.random() < 0.6:
+            # a second doc file whose name differs in punctuation only
+            twin = 'docs/readme%s%d.txt' % (rng.choice([' ', '-', '+', '.']),
+                                            case['idx'])
+            extra_files.append({'file': twin,
+                                'content': 'Twin\n\n    >>> print(1)\n'
+                                           '    %d\n' % rng.choice([1, 2])})
+            dfiles.append(twin)
+            ndoc += 1
+        nodes.append({'t': 'docfile', 'files': dfiles})
+        docfile_names = [os.path.basename(f) for f in dfiles]
         ndoc += 1
     xlayers = []
     if submode:
@@ -302,6 +313,14 @@ def run_case(case):
                           want={'failure': nF * rep, 'error': nE * rep,
                                 'uxsuccess': nU * rep},
                           foreign=foreign[:3])
+        # every doc file is a test of its own: `rep` testcases carry its name
+        allnames = [n for lst in cases_by_class.values() for n, _f, _e in lst]
+        for dn in docfile_names:
+            C('docfile_cases_checked')
+            if allnames.count(dn) != rep:
+                V('docfile-test-not-in-reports-once-per-iteration',
+                  'xml-docfile-count', docfile=dn,
+                  count=allnames.count(dn), want=rep, files=files[:8])
         C('doctest_cases', ndoc)
     finally:
         vworld.destroy(root)
